@@ -439,8 +439,11 @@ fn run_session(job: &J) -> J {
                 o["ticks"] = take_ticks();
                 results.push(o);
                 // the interpreter that panicked is not trusted any further: the property is
-                // already violated; later steps on it would only report noise.
-                break;
+                // already violated; later steps on it would only report noise.  (Stateless
+                // batches - numeric cases - ask to go on.)
+                if !job.get("continue_after_panic").and_then(|x| x.as_bool()).unwrap_or(false) {
+                    break;
+                }
             }
         }
     }
